@@ -97,11 +97,14 @@ def _wellformed(bi: int) -> evid.Local:
         for cuts in itertools.combinations(range(1, n), ncut):
             cs = (0,) + cuts + (n,)
             parts.append([data[a:b2] for a, b2 in zip(cs, cs[1:])])
-    for chunks in parts:
+    for pi, chunks in enumerate(parts):
+      # every partition from a session with operations outstanding; whole / byte-wise / every single cut also from a session
+      # that has seen no traffic (where a bind pipelined with further requests is legitimate) and from one that is binding
+      for state in ("open-outstanding", "fresh", "binding") if pi < 2 + (n - 1) else ("open-outstanding",):
         loc.add("transitions", len(chunks))
-        v, outcome = deliver(role, data, chunks)
+        v, outcome = deliver(role, data, chunks, state)
         if v:
-            loc.violation(f"{v[0]}:{role}:well-formed-stream", v[1] + f" [chunk sizes {[len(c) for c in chunks][:8]}]", {"role": role, "data": data.hex(), "chunks": "bytewise" if len(chunks) == n else [c.hex() for c in chunks]})
+            loc.violation(f"{v[0]}:{role}:well-formed-stream", v[1] + f" [chunk sizes {[len(c) for c in chunks][:8]}; {state}]", {"role": role, "data": data.hex(), "chunks": "bytewise" if len(chunks) == n else [c.hex() for c in chunks], "state": state})
     loc.add("states")
     loc.distinct.add(("well-formed", bi))
     return loc
@@ -126,12 +129,15 @@ def _work(job: t.Tuple[int, str]) -> evid.Local:
             data = mut
         loc.add("states")
         for mname, chunks in modes(data, _X["all_splits"] or len(data) <= 64):
+          # from a session with operations outstanding, and (whole / byte-wise deliveries) from one that has seen no traffic
+          # yet: what a session does with a damaged PDU must not depend on whether it was the first
+          for state in ("open-outstanding", "fresh") if mname in ("whole", "bytewise") and shape in ("mut", "mut+valid") else ("open-outstanding",):
             loc.add("transitions", len(chunks))
-            v, outcome = deliver(role, data, chunks)
+            v, outcome = deliver(role, data, chunks, state)
             loc.distinct.add((role, label, outcome))
             if v:
                 cause = "interior-incomplete" if label in ("len+1", "len-84-ffffffff", "len-126-octets", "stub-1", "stub-2", "tag=31-dangling", "delete", "empty", "truncate-1", "pc-flip") else "other"
-                loc.violation(f"{v[0]}:{role}:{cause}", v[1] + f"  [{label} on node {idx} of base {bi}; stream {data.hex()[:90]}; {mname}]", {"role": role, "data": data.hex(), "chunks": [c.hex() for c in chunks] if len(chunks) <= 3 else "bytewise", "mutation": label, "node": idx})
+                loc.violation(f"{v[0]}:{role}:{cause}", v[1] + f"  [{label} on node {idx} of base {bi}; stream {data.hex()[:90]}; {mname}]", {"role": role, "data": data.hex(), "chunks": [c.hex() for c in chunks] if len(chunks) <= 3 else "bytewise", "mutation": label, "node": idx, "state": state})
     return loc
 
 
